@@ -27,3 +27,54 @@ def t_path_avoiding():
 if __name__ == "__main__":
     t_path_avoiding()
     print("selftest ok")
+
+
+def t_inline():
+    """a private helper is spliced into its caller: parameter bound, call -> goto, return -> dest assign"""
+    from inline import Inliner
+    from model import norm, Body
+    ty = {"s": "i32", "k": "prim"}
+    helper = {"id": "m::helper", "kind": "fn", "vis": "crate", "parent_kind": "Mod", "argc": 1, "file": "f", "line": 1,
+              "parent": "m", "root": "m::helper",
+              "locals": [{"ty": ty}, {"ty": ty}],
+              "blocks": [{"cleanup": False, "stmts": [{"k": "assign", "lhs": [0], "line": 1, "rv": {"k": "use", "op": {"k": "copy", "p": [1]}}}],
+                          "term": {"k": "return", "line": 1}}]}
+    caller = {"id": "m::caller", "kind": "fn", "vis": "pub", "parent_kind": "Mod", "argc": 1, "file": "f", "line": 5,
+              "parent": "m", "root": "m::caller",
+              "locals": [{"ty": ty}, {"ty": ty}, {"ty": ty}],
+              "blocks": [{"cleanup": False, "stmts": [],
+                          "term": {"k": "call", "line": 6, "exp": False, "target": 1, "dest": [2],
+                                   "fn": {"k": "def", "path": "m::helper", "local": True, "inst": {"path": "m::helper", "local": True, "closure": False}, "targs": []},
+                                   "args": [{"k": "copy", "p": [1], "t": ty}]}},
+                         {"cleanup": False, "stmts": [{"k": "assign", "lhs": [0], "line": 7, "rv": {"k": "use", "op": {"k": "copy", "p": [2]}}}],
+                          "term": {"k": "return", "line": 7}}]}
+    inl = Inliner([helper, caller], norm, set())
+    out = inl.inline(caller)
+    assert len(out["blocks"]) == 3 and out["blocks"][0]["term"]["k"] == "goto"
+    assert out["inlined"] == ["m::helper"]
+    b = Body(out, {"adts": []})
+    # the result of the (inlined) call is the caller's own parameter
+    assert b.local_prov(0) == frozenset([("param", 1, ())]), b.local_prov(0)
+    # a pub helper is not inlined
+    helper2 = dict(helper, vis="pub")
+    out2 = Inliner([helper2, caller], norm, set()).inline(caller)
+    assert len(out2["blocks"]) == 2
+
+
+def t_fieldroles():
+    import fieldroles
+    facts = {"adts": [{"path": "observer::Observer", "variants": [{"name": "Observer", "fields": [
+        {"name": "a", "ty": {"s": "internals::function_wrapper::FunctionWrapper<'a, T, ()>"}, "leaves": []},
+        {"name": "b", "ty": {"s": "internals::function_wrapper::FunctionWrapper<'a, rx_error::RxError, ()>"}, "leaves": []},
+        {"name": "c", "ty": {"s": "internals::function_wrapper::FunctionWrapper<'a, (), ()>"}, "leaves": []},
+        {"name": "d", "ty": {"s": "std::sync::Arc<std::sync::Mutex<std::option::Option<internals::function_wrapper::FunctionWrapper<'a, (), ()>>>>"}, "leaves": []},
+        {"name": "e", "ty": {"s": "std::sync::Arc<std::sync::Mutex<bool>>"}, "leaves": []}]}]}], "bodies": []}
+    ren = fieldroles.compute_renames(facts)
+    assert ren == {("observer::Observer", "a"): "fn_next", ("observer::Observer", "b"): "fn_error", ("observer::Observer", "c"): "fn_complete",
+                   ("observer::Observer", "d"): "fn_on_unsubscribe", ("observer::Observer", "e"): "terminated"}, ren
+
+
+if __name__ == "__main__":
+    t_inline()
+    t_fieldroles()
+    print("selftest (inline, fieldroles) ok")
